@@ -55,15 +55,15 @@ def _on_alarm(signum, frame):
 
 
 def timed(f, *args, **kw):
-    """run f under a wall-clock limit; f itself catches Exception, so a timeout
+    """run f under a CPU-time limit (ITIMER_VIRTUAL: not affected by the load of the machine); f itself catches Exception, so a timeout
     inside the real engine shows up as an ("EXC","_Timeout",..) entry"""
-    signal.setitimer(signal.ITIMER_REAL, REAL_TIMEOUT)
+    signal.setitimer(signal.ITIMER_VIRTUAL, REAL_TIMEOUT)
     try:
         return f(*args, **kw)
     except _Timeout as e:
         return [exc_entry(e)]
     finally:
-        signal.setitimer(signal.ITIMER_REAL, 0)
+        signal.setitimer(signal.ITIMER_VIRTUAL, 0)
 
 
 # ------------------------------------------------------------------ comparison
@@ -399,7 +399,7 @@ def main(argv=None):
     ap.add_argument("--limit", type=int, default=None, help="stop after this many cases (exhaustive mode)")
     ap.add_argument("--out", required=True)
     a = ap.parse_args(argv)
-    signal.signal(signal.SIGALRM, _on_alarm)
+    signal.signal(signal.SIGVTALRM, _on_alarm)
     out = run(a.family, a.seed, a.count, a.exhaustive, a.max_depth, a.limit)
     with open(a.out, "w") as f:
         json.dump(out, f, indent=1)
